@@ -66,7 +66,9 @@ class Ast:
         file, ln = body["span"].split(":")[0], int(body["span"].split(":")[1])
         name = body["id"].split("::")[-1]
         cands = [x for x in self.fns if x["rel"] == file and x["name"] == name]
-        if not cands and name in getattr(self, "renames", {}):
+        cands.sort(key=lambda x: abs(x["line"] - ln))
+        if (not cands or abs(cands[0]["line"] - ln) > 6) and name in getattr(self, "renames", {}):
+            # other functions of the file may still carry the old name (`serialize` of several types)
             cands = [x for x in self.fns if x["rel"] == file and x["name"] == self.renames[name]]
         if not cands:
             return None
@@ -108,6 +110,12 @@ class Join:
 
     def callee(self, rel, line, col, name):
         xs = self.calls.get(("%s:%d:%d" % (rel, line, col), name), [])
+        if not xs:
+            # the callee was renamed in the source and re-identified under its reviewed name in the facts (facts.Facts._apply_renames):
+            # the syntax tree says the new name, the facts the old one
+            for o, nw in getattr(self.f, "renamed", {}).items():
+                if nw.split("::")[-1] == name:
+                    xs = xs or self.calls.get(("%s:%d:%d" % (rel, line, col), o.split("::")[-1]), [])
         ids = []
         for b, t in xs:
             r = t.get("resolved") if t.get("resolved_local") else None
